@@ -13,6 +13,9 @@ def tyOf (s : String) : Option IntTy :=
   | "i16" => some ⟨16, true⟩ | "u16" => some ⟨16, false⟩
   | "i32" => some ⟨32, true⟩ | "u32" => some ⟨32, false⟩
   | "i64" | "ill" => some ⟨64, true⟩ | "u64" | "ull" => some ⟨64, false⟩
+  -- character types (integral, not bool): plain `char` and `wchar_t` are signed on the harness platform
+  | "c8" => some ⟨8, true⟩ | "c8u" => some ⟨8, false⟩ | "c16" => some ⟨16, false⟩
+  | "c32" => some ⟨32, false⟩ | "wc" => some ⟨32, true⟩
   | _ => none
 
 def fnTy (s : String) : Option IntTy :=
@@ -131,7 +134,7 @@ def step (_ : Unit) (l : Line) : Unit × String :=
         out (fmtE toString (ato t s)) (if sp.erange then "*" else toString sp.value)
       else
         let f := fun (r : Int × Nat) => s!"{r.1},{r.2},0"
-        out (fmtE f (strto t (cstrOf s) b)) s!"{sp.value},{sp.endPos},{fmtBool sp.erange}"
+        out (fmtE f (cstrto t s b)) s!"{sp.value},{sp.endPos},{fmtBool sp.erange}"
     | _, _, _ => bad
   | "sto" =>
     match fnTy fn, l.natList? "s", l.int? "base" with
